@@ -334,6 +334,7 @@ def run(rep, tier):
     nsites = 0
     from . import approx, c07
     rep.rule('R07e', 'unchecked indexing inside blocked_range task bodies stays in bounds (shared with C07)', floor=1)
+    rep.rule('R07k', 'reduction identities written as numeric_limits<T>::infinity() are 0 for integral weight types (the identity then wins every join)', floor=0)
     rep.rule('R06d', 'approximate TBB builder: the shortest-path maps are fresh for every index of the sub-range (shared with C06; stale maps make the result '
              'depend on how the range was split)', floor=2)
     for prog in progs.values():
@@ -341,6 +342,7 @@ def run(rep, tier):
         F, W = approx.analyse(prog)
         approx.report(rep, F, ['R06d'])
         c07.r07e(rep, prog)
+        c07.r07k(rep, prog)
     rep.extra['parallel_call_sites'] = nsites
     if nsites < 12:
         rep.analysis_broken('only %d tbb parallel call sites found in the library (12 confirmed by hand)' % nsites)
